@@ -1,5 +1,6 @@
 """Per-property configuration of the orchestrator (flavours, runs, minimum observations)."""
 
+WRAPS = '-Wl,' + ','.join('--wrap=' + f for f in ('malloc free calloc realloc time clock_gettime gettimeofday getrandom getentropy rand random open fopen clock mktime timegm gmtime gmtime_r localtime localtime_r').split())
 SAN = '-O1 -g -fno-omit-frame-pointer -fsanitize=address,undefined -fno-sanitize-recover=all'
 FLAVOURS = {
     'asan':     {'cc': 'gcc', 'cflags': SAN + ' -DNDEBUG'},
@@ -8,20 +9,27 @@ FLAVOURS = {
     # a second compiler: behaviour that depends on unspecified evaluation order or other compiler latitude shows up as a difference from the model
     'clang-asan': {'cc': 'clang', 'cflags': '-O1 -g -fno-omit-frame-pointer -fsanitize=address,undefined -fno-sanitize-recover=all -fno-sanitize=object-size -DNDEBUG'},
     'clang-plain': {'cc': 'clang', 'cflags': '-O2 -g -DNDEBUG'},
+    # builds that select code by predefined macros: ISA extensions of the host (-march=native defines __POPCNT__, __PCLMUL__, __AVX2__, ...) and other optimisation levels
+    'asan-native': {'cc': 'gcc', 'cflags': SAN + ' -DNDEBUG -march=native'},
+    'plain-O0': {'cc': 'gcc', 'cflags': '-O0 -g -DNDEBUG'},
+    'plain-Os': {'cc': 'gcc', 'cflags': '-Os -g -DNDEBUG'},
+    'plain-O3': {'cc': 'gcc', 'cflags': '-O3 -g -DNDEBUG -march=native'},
     'schar':    {'cc': 'gcc', 'cflags': SAN + ' -DNDEBUG', 'lib_cflags': '-fsigned-char'},
     'uchar':    {'cc': 'gcc', 'cflags': SAN + ' -DNDEBUG', 'lib_cflags': '-funsigned-char'},
     'tsan':     {'cc': 'gcc', 'cflags': '-O1 -g -fsanitize=thread -DNDEBUG'},
     # libc entry points reachable from the library are interposed at link time (C11, C15, C18)
     'asan-wrap': {'cc': 'gcc', 'cflags': SAN + ' -DNDEBUG', 'extra_src': ['pv_wrap.c'],
-                  'ldextra': '-Wl,--wrap=malloc,--wrap=free,--wrap=calloc,--wrap=realloc,--wrap=time,--wrap=clock_gettime,--wrap=gettimeofday,--wrap=getrandom,--wrap=getentropy,--wrap=rand,--wrap=random,--wrap=open,--wrap=fopen,--wrap=clock'},
+                  'ldextra': WRAPS},
     'asan-dbg-wrap': {'cc': 'gcc', 'cflags': SAN, 'extra_src': ['pv_wrap.c'],
-                  'ldextra': '-Wl,--wrap=malloc,--wrap=free,--wrap=calloc,--wrap=realloc,--wrap=time,--wrap=clock_gettime,--wrap=gettimeofday,--wrap=getrandom,--wrap=getentropy,--wrap=rand,--wrap=random,--wrap=open,--wrap=fopen,--wrap=clock'},
+                  'ldextra': WRAPS},
     'plain-wrap': {'cc': 'gcc', 'cflags': '-O2 -g -DNDEBUG', 'extra_src': ['pv_wrap.c'],
-                  'ldextra': '-Wl,--wrap=malloc,--wrap=free,--wrap=calloc,--wrap=realloc,--wrap=time,--wrap=clock_gettime,--wrap=gettimeofday,--wrap=getrandom,--wrap=getentropy,--wrap=rand,--wrap=random,--wrap=open,--wrap=fopen,--wrap=clock'},
+                  'ldextra': WRAPS},
     'fuzz':     {'cc': 'clang', 'cflags': '-O1 -g -fno-omit-frame-pointer -fsanitize=fuzzer-no-link,address,undefined -fno-sanitize-recover=all -fno-sanitize=object-size',
                  'ldflags': '-fsanitize=fuzzer,address,undefined'},
+    'tsan-wrap-Os': {'cc': 'gcc', 'cflags': '-Os -g -fsanitize=thread -DNDEBUG', 'extra_src': ['pv_wrap.c'], 'ldextra': WRAPS},
+    'tsan-wrap-O3': {'cc': 'gcc', 'cflags': '-O3 -g -fsanitize=thread -DNDEBUG -march=native', 'extra_src': ['pv_wrap.c'], 'ldextra': WRAPS},
     'tsan-wrap': {'cc': 'gcc', 'cflags': '-O1 -g -fsanitize=thread -DNDEBUG', 'extra_src': ['pv_wrap.c'],
-                  'ldextra': '-Wl,--wrap=malloc,--wrap=free,--wrap=calloc,--wrap=realloc,--wrap=time,--wrap=clock_gettime,--wrap=gettimeofday,--wrap=getrandom,--wrap=getentropy,--wrap=rand,--wrap=random,--wrap=open,--wrap=fopen,--wrap=clock'},
+                  'ldextra': WRAPS},
     # C16: no sanitizer (they change frame layout); eager binding so that the dynamic loader never dumps registers on the monitored stack
     'opt-O0':   {'cc': 'gcc', 'cflags': '-O0 -g -DNDEBUG', 'ldextra': '-Wl,-z,now'},
     'opt-O1':   {'cc': 'gcc', 'cflags': '-O1 -g -DNDEBUG', 'ldextra': '-Wl,-z,now'},
@@ -68,7 +76,8 @@ PROPS['C03'] = {
     'level': 'exploration',
     'exhaustive_possible': True,
     'runs': [{'name': 'asan', 'flavour': 'asan', 'driver': 'drv_c03'},
-             {'name': 'clang', 'flavour': 'clang-asan', 'driver': 'drv_c03', 'env': {'PV_SCALE': '20'}, 'shards': 6}],
+             {'name': 'clang', 'flavour': 'clang-asan', 'driver': 'drv_c03', 'env': {'PV_SCALE': '20'}, 'shards': 6},
+             {'name': 'native', 'flavour': 'asan-native', 'driver': 'drv_c03', 'env': {'PV_SCALE': '20'}, 'shards': 4}],
     'require': {'encode.calls': 400000, 'bits.seeds': 13531, 'purity.histories_agree': 1000, 'reserved_bit.decodes': 100, 'oracle.vectors_reproduced': 3000},
 }
 
@@ -100,7 +109,8 @@ PROPS['C19'] = {
 PROPS['C08'] = {
     'level': 'exploration',
     'exhaustive_possible': True,
-    'runs': [{'name': 'asan', 'flavour': 'asan', 'driver': 'drv_c08', 'timeout': 1800}],
+    'runs': [{'name': 'asan', 'flavour': 'asan', 'driver': 'drv_c08', 'timeout': 1800},
+             {'name': 'native', 'flavour': 'asan-native', 'driver': 'drv_c08', 'env': {'PV_SCALE': '10'}, 'shards': 6, 'timeout': 1800}],
     'require': {'words.swept': 2048 * 3 + 7 * 512, 'tokens.prefix.en.accepted': 2500, 'tokens.prefix.en.rejected': 5000,
                 'tokens.accent-terminated-prefix.es.accepted': 100, 'tokens.foreign-letter-inserted.fr.rejected': 1000, 'mixed.permitted.OK': 10000, 'long.tokens.ERR_LANG': 1000, 'tokens.accent-block-edge.es.rejected': 1000},
 }
@@ -133,6 +143,7 @@ PROPS['C01'] = {
     'level': 'exploration',
     'runs': [{'name': 'asan', 'flavour': 'asan', 'driver': 'drv_c01'},
              {'name': 'clang', 'flavour': 'clang-asan', 'driver': 'drv_c01', 'env': {'PV_SCALE': '15'}, 'shards': 6},
+             {'name': 'native', 'flavour': 'asan-native', 'driver': 'drv_c01', 'env': {'PV_SCALE': '10'}, 'shards': 4},
              {'name': 'asan-dbg', 'flavour': 'asan-dbg', 'driver': 'drv_c01', 'env': {'PV_SCALE': '10'}, 'shards': 4}],
     'require': {'auto.ok': 50000, 'auto.mult_lang': 100, 'ambiguous.constructed': 500, 'roundtrip.how.created': 5000, 'roundtrip.how.crypted': 5000, 'axes.cases': 3000},
 }
@@ -144,7 +155,8 @@ PROPS['C02'] = {
     'level': 'exploration',
     'exhaustive_possible': True,
     'runs': [{'name': 'plain', 'flavour': 'plain', 'driver': 'drv_c02', 'timeout': 1800},
-             {'name': 'asan', 'flavour': 'asan', 'driver': 'drv_c02', 'env': {'PV_SCALE': '5'}, 'shards': 6}],
+             {'name': 'asan', 'flavour': 'asan', 'driver': 'drv_c02', 'env': {'PV_SCALE': '5'}, 'shards': 6},
+             {'name': 'native', 'flavour': 'asan-native', 'driver': 'drv_c02', 'env': {'PV_SCALE': '5'}, 'shards': 6}],
     'require': {'arith.correct_validates': 30720, 'arith.wrong_rejected': 400000, 'subst.detected': 300000, 'swap.detected': 2000, 'unique.exactly_one': 50, 'load.wrong_check_rejected': 50000},
 }
 MANIFEST_TEXT['C02'] = {'technique': 'runtime monitoring: exhaustive field-element x position sweep and full substitution/swap neighbourhoods through the decoders vs model check value',
@@ -155,7 +167,8 @@ PROPS['C05'] = {
     'level': 'exploration',
     'exhaustive_possible': True,
     'runs': [{'name': 'plain', 'flavour': 'plain', 'driver': 'drv_c05', 'timeout': 1800},
-             {'name': 'asan', 'flavour': 'asan', 'driver': 'drv_c05', 'env': {'PV_SCALE': '10'}, 'shards': 6}],
+             {'name': 'asan', 'flavour': 'asan', 'driver': 'drv_c05', 'env': {'PV_SCALE': '10'}, 'shards': 6},
+             {'name': 'native', 'flavour': 'asan-native', 'driver': 'drv_c05', 'env': {'PV_SCALE': '10'}, 'shards': 4}],
     'require': {'rows.own_coin_ok': 300, 'pairs.rejected_with_checksum': 600000, 'token_diffs.compared': 3000, 'allcoins.own_coin_ok': 20480, 'pairs.failing_allocator_ok': 1500},
 }
 MANIFEST_TEXT['C05'] = {'technique': 'runtime monitoring: full 2047-coin rows through encode/decode_explicit (+ auto-detect sample) with token-wise phrase diff',
@@ -166,7 +179,7 @@ PROPS['C04'] = {
     'level': 'exploration',
     'runs': [{'name': 'asan', 'flavour': 'asan', 'driver': 'drv_c04'}],
     'require': {'keygen.args_equal_model': 30000, 'keygen.key_page_made_inaccessible_on_kdf_return': 1000, 'paths.agree': 8000, 'neighbours.differ': 5000,
-                'keygen.path.created': 5000, 'keygen.path.decoded': 5000, 'keygen.keysize.0': 1000, 'keygen.keysize.4096': 1000, 'concurrent.keygens_equal_model': 50000, 'paths.crypt_under_a_different_feature_mask': 5000},
+                'keygen.path.created': 5000, 'keygen.path.decoded': 5000, 'keygen.keysize.0': 1000, 'keygen.keysize.4096': 1000, 'concurrent.keygens_equal_model': 50000, 'paths.crypt_under_a_different_feature_mask': 5000, 'huge.key_sizes_passed_unaltered': 90},
 }
 MANIFEST_TEXT['C04'] = {'technique': 'runtime monitoring: PBKDF2 monitor records all seven arguments of every call; compared with the model; key buffer guarded by ASan red zones / mprotect',
     'text': 'Every polyseed_keygen call of the workload (seeds reached by create, load, decode from every language, double crypt, stored-encrypted-then-decrypted; boundary and random coins; key sizes 0..4096) must invoke the injected KDF exactly once with the exact password, lengths, salt, 10000 iterations and the caller\'s buffer; the buffer must afterwards hold exactly what the monitor wrote, and in a sub-sample the page is made inaccessible when the monitor returns so that any later access by the library faults. An online map asserts one KDF input per abstract (seed, coin) and one abstract key per KDF input. Crypt/keygen also run while a different user-feature mask is enabled, and a fourth section derives keys from 8 threads at once (yields inside the KDF monitor): every call must still see exactly its own inputs.',
@@ -187,7 +200,8 @@ PROPS['C10'] = {
     'level': 'exploration',
     'exhaustive_possible': True,
     'runs': [{'name': 'asan', 'flavour': 'asan', 'driver': 'drv_c10'},
-             {'name': 'asan-dbg', 'flavour': 'asan-dbg', 'driver': 'drv_c10', 'env': {'PV_SCALE': '25'}, 'shards': 6}],
+             {'name': 'asan-dbg', 'flavour': 'asan-dbg', 'driver': 'drv_c10', 'env': {'PV_SCALE': '25'}, 'shards': 6},
+             {'name': 'native', 'flavour': 'asan-native', 'driver': 'drv_c10', 'env': {'PV_SCALE': '25'}, 'shards': 4}],
     'require': {'default.cells_ok': 32, 'matrix.cells_with_reinjection': 1500, 'history.reinjections': 1000, 'enable.return_ok': 6000, 'cell.load.OK': 1000, 'cell.load.ERR_UNSUPPORTED': 1000, 'cell.decode.ERR_UNSUPPORTED': 1000,
                 'cell.decode_explicit.ERR_UNSUPPORTED': 1000, 'cell.create.ERR_UNSUPPORTED': 500, 'cell.create.OK': 500, 'getters.checked': 5000, 'history.creates_ok': 5000},
 }
@@ -210,7 +224,8 @@ MANIFEST_TEXT['C11'] = {'technique': 'runtime monitoring: scripted clock through
 
 PROPS['C12'] = {
     'level': 'exploration',
-    'runs': [{'name': 'asan', 'flavour': 'asan', 'driver': 'drv_c12'}],
+    'runs': [{'name': 'asan', 'flavour': 'asan', 'driver': 'drv_c12'},
+             {'name': 'native', 'flavour': 'asan-native', 'driver': 'drv_c12', 'env': {'PV_SCALE': '15'}, 'shards': 4}],
     'require': {'involution.restored': 20000, 'crypt.under_a_different_feature_mask': 10000, 'cases.all_clauses_held': 20000, 'crypt.mask_source.boundary': 5000, 'crypt.mask_source.random': 5000,
                 'equivalent_spellings.agree(forms really differ)': 1500, 'crypt.password.empty': 500, 'crypt.password.hangul': 500},
 }
@@ -220,7 +235,8 @@ MANIFEST_TEXT['C12'] = {'technique': 'runtime monitoring: PBKDF2 monitor with sc
 
 PROPS['C09'] = {
     'level': 'exploration',
-    'runs': [{'name': 'asan', 'flavour': 'asan', 'driver': 'drv_c09', 'timeout': 1800}],
+    'runs': [{'name': 'asan', 'flavour': 'asan', 'driver': 'drv_c09', 'timeout': 1800},
+             {'name': 'native', 'flavour': 'asan-native', 'driver': 'drv_c09', 'env': {'PV_SCALE': '10'}, 'shards': 4, 'timeout': 1800}],
     'require': {'outcome.NUM_WORDS': 1000, 'outcome.LANG': 1000, 'outcome.MULT_LANG': 1000, 'outcome.unique.OK': 1000, 'outcome.unique.ERR_CHECKSUM': 1000, 'outcome.unique.ERR_UNSUPPORTED': 1000,
                 'armed.auto.ERR_MEMORY': 1000, 'armed.memory_before_unsupported': 300, 'armed.checksum_before_memory': 300, 'ambiguous.constructed': 500,
                 'multi3.constructed': 500, 'multi3.phrases_recognised_by_3_languages': 200},
@@ -233,6 +249,7 @@ PROPS['C14'] = {
     'level': 'exploration',
     'runs': [{'name': 'asan', 'flavour': 'asan', 'driver': 'drv_c14', 'timeout': 1800},
              {'name': 'asan-dbg', 'flavour': 'asan-dbg', 'driver': 'drv_c14', 'env': {'PV_SCALE': '25'}, 'shards': 6, 'timeout': 1800},
+             {'name': 'native', 'flavour': 'asan-native', 'driver': 'drv_c14', 'env': {'PV_SCALE': '15'}, 'shards': 4, 'timeout': 1800},
              {'name': 'memcheck', 'flavour': 'plain', 'driver': 'drv_c14', 'env': {'PV_SCALE': '4'}, 'shards': 12, 'tiers': ('thorough',), 'log_scan': 'memcheck',
               'wrapper': ['valgrind', '--tool=memcheck', '--quiet', '--error-exitcode=0', '--track-origins=no', '--undef-value-errors=yes'], 'timeout_thorough': 7200},
              {'name': 'fuzz-phrase', 'kind': 'fuzz', 'flavour': 'fuzz', 'driver': 'fuzz_api', 'mode': 0, 'runs_quick': 150000, 'runs_thorough': 5000000},
@@ -275,7 +292,11 @@ PROPS['C13'] = {
     'exhaustive_possible': True,
     'runs': [{'name': 'asan', 'flavour': 'asan', 'driver': 'drv_c13', 'timeout': 1800},
              {'name': 'asan-dbg', 'flavour': 'asan-dbg', 'driver': 'drv_c13', 'env': {'PV_SCALE': '10'}, 'shards': 4, 'timeout': 1800},
-             {'name': 'clang', 'flavour': 'clang-asan', 'driver': 'drv_c13', 'env': {'PV_SCALE': '10'}, 'shards': 4, 'timeout': 1800}],
+             {'name': 'clang', 'flavour': 'clang-asan', 'driver': 'drv_c13', 'env': {'PV_SCALE': '10'}, 'shards': 4, 'timeout': 1800},
+             {'name': 'native', 'flavour': 'asan-native', 'driver': 'drv_c13', 'env': {'PV_SCALE': '10'}, 'shards': 4, 'timeout': 1800},
+             {'name': 'O0', 'flavour': 'plain-O0', 'driver': 'drv_c13', 'env': {'PV_SCALE': '8'}, 'shards': 2, 'timeout': 1800},
+             {'name': 'Os', 'flavour': 'plain-Os', 'driver': 'drv_c13', 'env': {'PV_SCALE': '8'}, 'shards': 2, 'timeout': 1800},
+             {'name': 'O3-native', 'flavour': 'plain-O3', 'driver': 'drv_c13', 'env': {'PV_SCALE': '8'}, 'shards': 2, 'timeout': 1800}],
     'require': {'walks.matched_model': 3000, 'exhaustive.sequences': 11110, 'ops.create': 10000, 'ops.load': 10000, 'ops.decode': 20000, 'ops.crypt': 10000, 'ops.reinject': 3000,
                 'ops.enable': 5000, 'ops.free': 5000, 'observations': 100000, 'static_storage.checks': 100000, 'walks.with_address_reusing_allocator': 1500, 'ops.non_constructor_with_failing_allocator': 500, 'max.static_storage.ranges_of_library_objects_monitored': 2},
 }
@@ -285,9 +306,11 @@ MANIFEST_TEXT['C13'] = {'technique': 'runtime monitoring: lock-step execution of
 
 PROPS['C20'] = {
     'level': 'exploration',
-    'runs': [{'name': 'tsan', 'flavour': 'tsan-wrap', 'driver': 'drv_c20', 'shards': 6, 'log_scan': 'tsan', 'timeout': 1800, 'timeout_thorough': 10800}],
+    'runs': [{'name': 'tsan', 'flavour': 'tsan-wrap', 'driver': 'drv_c20', 'shards': 6, 'log_scan': 'tsan', 'timeout': 1800, 'timeout_thorough': 10800},
+             {'name': 'tsan-Os', 'flavour': 'tsan-wrap-Os', 'driver': 'drv_c20', 'shards': 6, 'log_scan': 'tsan', 'env': {'PV_SCALE': '50'}, 'timeout': 1800, 'timeout_thorough': 10800},
+             {'name': 'tsan-O3', 'flavour': 'tsan-wrap-O3', 'driver': 'drv_c20', 'shards': 6, 'log_scan': 'tsan', 'env': {'PV_SCALE': '50'}, 'timeout': 1800, 'timeout_thorough': 10800}],
     'require': {'threads.digest_equal_to_solo': 60, 'overlap.total': 200000, 'overlap.crypt+decode': 50, 'overlap.encode+encode': 50, 'overlap.create+free': 50, 'overlap.decode+decode': 50,
-                'rounds.8_threads': 3, 'rounds.16_threads': 3, 'rounds.table.all-entries-injected': 2, 'rounds.table.time-NULL(libc-clock)': 2, 'rounds.table.time+alloc+free-NULL(libc)': 2},
+                'rounds.8_threads': 4, 'rounds.16_threads': 4, 'rounds.table.all-entries-injected': 2, 'rounds.table.time-NULL(libc-clock)': 2, 'rounds.table.time+alloc+free-NULL(libc)': 2},
 }
 MANIFEST_TEXT['C20'] = {'technique': 'runtime monitoring: ThreadSanitizer build (library + harness) under multi-threaded scripted workloads with yields injected at the dependency callbacks; serial-vs-concurrent transcript equality',
     'text': 'After one injection and one feature configuration, 8 and 16 threads execute deterministic scripts of every seed operation on private seeds (all languages), with random sched_yield/spins inside the dependency callbacks (the library\'s own suspension points) and several repetitions with different yield seeds. Any ThreadSanitizer report with a library frame is a violation (deduplicated by entry-point pair); each thread\'s transcript digest must equal that of the same script executed alone. A logical clock (relaxed atomics, so that it adds no synchronisation) measures how many call pairs of different threads really overlapped, per operation pair; a run with too few is inconclusive. Rounds rotate over three dependency tables: all entries injected, libc clock (time NULL), libc clock + malloc + free; libc time() is interposed so that results stay deterministic.',
